@@ -86,6 +86,11 @@ func c06Scen(c *mon.Case) (*eng.Scen, string) {
 	}
 	sc := eng.RandScen(rng, c.Tier, c.Idx)
 	sc.Horizon = 2*time.Hour + 2*time.Minute
+	// the property's premise: once reliable, the link's latency (round trip)
+	// is below the resend timeout
+	if sc.Conf.Static && 2*sc.Conf.Lat >= sc.Conf.Resend {
+		sc.Conf.Lat = sc.Conf.Resend / 4
+	}
 	return sc, "random"
 }
 
@@ -136,7 +141,7 @@ func runC06(c *mon.Case) {
 		case closed && keepalive:
 			c.Shard.Violate("peer-not-notified|"+family,
 				fmt.Sprintf("one endpoint closed itself (client %v, server %v) but some Send/Recv caller of the other was still blocked at the horizon %v [%s]", r.DoneC, r.DoneS, r.Elapsed, sc.Conf.String()), rep())
-		case !closed && r.Elapsed-last > window:
+		case !closed && pending > 0 && r.Elapsed-last > window:
 			c.Shard.Violate("stall|"+family,
 				fmt.Sprintf("silent stall: both ends open, %d accepted message(s) undelivered (a: %d/%d, b: %d/%d), last delivery at %v, horizon %v, resend timeout %v [%s]",
 					pending, delA, accA, delB, accB, last, r.Elapsed, rtNow, sc.Conf.String()), rep())
